@@ -29,6 +29,7 @@ COMPONENTS_STUB = ["key store (bytes kept by the harness, fault-free)",
 ASSUMPTIONS = ["model codec implements RFC 5480 / 5915 / 5958 named-curve "
                "structures and SEC1 point encodings",
                "frozen curve table (validated mathematically at setup)"]
+HISTORY_DIFF = {"quick": 120, "thorough": 1000}
 SHRINK = [["chain"]]
 REQUIRED_PROBES = {"quick": ["leading_zero_d", "leading_zero_coord"],
                    "thorough": ["leading_zero_d", "leading_zero_coord"]}
@@ -104,6 +105,7 @@ def execute(prog):
     def fail(oracle, site, msg, detail=None):
         raise core.Violation(core.violation(ID, oracle, site, msg, detail))
 
+    rlog = []
     with libx.registered(curve, toy):
         try:
             try:
@@ -134,6 +136,8 @@ def execute(prog):
                     fail("serialise", "%s-%s" % (where, type(e).__name__),
                          "serialising via %s raised %r" % (where, e))
                 private = kind.endswith("sk")
+                if fmt != "pickle":
+                    rlog.append((kind, fmt, data.hex()))
                 if fmt != "pickle" and not kind.startswith("model"):
                     # byte-exact canonical output
                     want = formats.model_sk_bytes(mc, d, Q, fmt) if private \
@@ -222,4 +226,5 @@ def execute(prog):
     out["nontrivial"] = len(prog["chain"]) >= 2
     out["steps"] = out["ops"]
     out["digest"] = core.digest_of([prog["curve"], prog["d"], prog["chain"]])
+    out["rdigest"] = core.digest_of(rlog)
     return out
